@@ -882,7 +882,7 @@ func main() {
 	r := vh.NewRng(cfg.Seed)
 	n, maxLen := 300, 40
 	if cfg.Thorough() {
-		n = 4000
+		n = 2500
 	}
 	var rcs []Case
 	for i := 0; i < n; i++ {
